@@ -37,6 +37,7 @@
 #include <cstdlib>
 #include <cstring>
 #include <ctime>
+#include <algorithm>
 #include <fstream>
 #include <map>
 #include <sstream>
@@ -104,6 +105,9 @@ static std::vector<std::string> candidates(RimeSessionId s, size_t limit) {
 }
 
 // what the session shows after a command: committed text (if any) and the input left
+static std::map<RimeSessionId, std::string> last_k_input;  // letters typed by the latest plain K command (command V)
+static std::map<RimeSessionId, std::string> last_q_text;   // text and end of the candidate the latest Q command selected
+static std::map<RimeSessionId, size_t> last_q_end;
 static std::map<RimeSessionId, std::string> last_commit;   // text of the latest commit seen per session (command Y)
 static void observe(const char* tag, RimeSessionId s) {
   std::string out = tag;
@@ -232,6 +236,7 @@ static int do_run(int argc, char** argv) {
       if (!keys.empty() && keys[0] == ' ')
         keys.erase(0, 1);
       api->simulate_key_sequence(s, keys.c_str());
+      if (keys.find('{') == std::string::npos) last_k_input[s] = keys;
       observe("K", s);
     } else if (cmd == "P" || cmd == "X") {
       unsigned long r = 0;
@@ -248,6 +253,33 @@ static int do_run(int argc, char** argv) {
       else
         api->delete_candidate(s, i);
       observe(cmd == "P" ? "P+" : "X+", s);
+    } else if (cmd == "V") {
+      // retype the stretch of the latest K input that the latest Q selection covered and delete the candidate with that text
+      std::string prefix = last_k_input[s].substr(0, std::min(last_q_end[s], last_k_input[s].size()));
+      if (prefix.empty() || last_q_text[s].empty()) {
+        printf("V nothing\n");
+        continue;
+      }
+      api->clear_composition(s);
+      api->simulate_key_sequence(s, prefix.c_str());
+      auto cands = candidates(s, 60);
+      std::string out = "V prefix=" + prefix + " text=" + hex(last_q_text[s]) + " before=";
+      for (auto& c : cands) out += hex(c) + ",";
+      size_t i = 0;
+      while (i < cands.size() && cands[i] != last_q_text[s]) ++i;
+      if (i == cands.size()) {
+        printf("%s notfound\n", out.c_str());
+        api->clear_composition(s);
+        continue;
+      }
+      api->delete_candidate(s, i);
+      api->clear_composition(s);
+      api->simulate_key_sequence(s, prefix.c_str());
+      auto after = candidates(s, 60);
+      out += " index=" + std::to_string(i) + " after=";
+      for (auto& c : after) out += hex(c) + ",";
+      printf("%s\n", out.c_str());
+      api->clear_composition(s);
     } else if (cmd == "Y") {
       auto cands = candidates(s, 100);
       size_t i = 0;
@@ -282,6 +314,11 @@ static int do_run(int argc, char** argv) {
       size_t i = partial[r % partial.size()];
       auto cands = candidates(s, i + 1);
       printf("Q index=%zu text=%s\n", i, i < cands.size() ? hex(cands[i]).c_str() : "?");
+      if (i < cands.size()) {
+        last_q_text[s] = cands[i];
+        auto qc = ctx->composition().back().menu->GetCandidateAt(i);
+        last_q_end[s] = qc ? qc->end() : 0;
+      }
       api->select_candidate(s, i);
       observe("Q+", s);
     } else if (cmd == "F") {
